@@ -100,6 +100,17 @@ def gen_overwrite_case(rng):
     pr = rng.choice(['', '', "{{'priority': 1}}"])
     nested = f"!call:vmod.g{pr} {{u: {rng.randint(1, 9)}}}"
     old = f"m: !call:vmod.f {{w: {nested}, x: 1}}"
+    if rng.random() < 0.2:
+        # a plain MAPPING holding a dynamic node is replaced by a function node ("dict <- call" replaces the dict): the old content must not run,
+        # wherever the new call is written - also below an ancestor tagged !merge (the ancestor's mark says how the ancestor merges)
+        tag = rng.choice(['', '!merge ', '!merge '])
+        where = rng.choice(['parent', 'root'])
+        older = '{k: {m: {x: %s, keep: 1}, d: 2}, z: 0}' % nested
+        inner = '{e: 3, m: !call:vmod.h {a: 2}}' if rng.random() < 0.5 else '{m: !call:vmod.h {a: 2}}'
+        newer = ('{k: %s%s}' % (tag, inner)) if where == 'parent' else ('%s{k: %s}' % (tag, inner))
+        if pr:
+            return None
+        return dict(texts=[older, newer], expect=['vmod.h'], how='dict_to_call')
     how = rng.choice(['scalar', 'del', 'retarget', 'retarget_str', 'same_target'])
     if how == 'scalar':
         new, expect = 'm: 5', []
